@@ -61,6 +61,8 @@ func TestC01(t *testing.T) {
 		patchSlice := drawSlicer(rt, "patchslice")
 		poolSlice := drawSlicer(rt, "poolslice")
 		spec := drawSched(rt)
+		eofWith := rapid.Bool().Draw(rt, "eofwith")
+		sigViaFile := rapid.Bool().Draw(rt, "sigviafile")
 
 		dir, cleanup := RunDir()
 		defer cleanup()
@@ -71,7 +73,7 @@ func TestC01(t *testing.T) {
 		s := &Sched{Spec: spec, MaxSteps: 200000}
 		var dr *DiffResult
 		s.Run(t, func() {
-			dr = Diff(oldDir, newDir, comp, DiffSeams{SourceSlice: srcSlice, Yield: s.Yield})
+			dr = Diff(oldDir, newDir, comp, DiffSeams{SourceSlice: srcSlice, Yield: s.Yield, EOFWith: eofWith, SigViaFile: sigViaFile})
 		})
 		if s.BudgetExceeded {
 			return
